@@ -134,6 +134,9 @@ Proof. induction l as [|a l IH]; cbn [flat_map]; [reflexivity|]. now rewrite fla
 Lemma nothing_bound l : existsb (bound []) l = false.
 Proof. induction l as [|k l IH]; [reflexivity|]. exact IH. Qed.
 
+Lemma flat_map_singleton_map {A B} (f : A -> B) l : flat_map (fun a => [f a]) l = map f l.
+Proof. induction l as [|a l IH]; cbn; [reflexivity|]. now rewrite IH. Qed.
+
 Section ConcatAny.
   Variable h : heap.
   Variable dom : key -> list val.
@@ -172,6 +175,32 @@ Section ConcatAny.
     rewrite IH. f_equal.
     cbn [bind_selected EvalPure.eval_term lookup bind]. rewrite Nat.eqb_refl. cbn [flat_map fst app map].
     unfold row_of. cbn [map EvalPure.eval_term lookup bind]. now rewrite Nat.eqb_refl.
+  Qed.
+
+  (* the concatenation binds only itself: a variable it ranges over stays free, selected next to the outer variable it takes
+     every value of its domain for every qualifying outer value *)
+  Variable x : key.
+  Hypothesis x_cid : Nat.eqb x cid = false.
+  Hypothesis x_y : Nat.eqb x y = false.
+
+  Theorem concat_any_leaves_parent_free o m :
+    run_query h dom [TVar y; TVar x] (Some (CCmp o (TConcat cid u) (TMap m (TVar y))))
+    = flat_map (fun w => map (fun v => [w; v]) (dom x)) (filter (fun w => apply_op o concat_value (apply_map h m w)) (dom y)).
+  Proof.
+    unfold run_query. cbn [EvalPure.eval]. unfold bound_in. cbn [tvars]. rewrite nothing_bound. cbn [orb existsb bound lookup].
+    unfold cmp_rows. rewrite concat_any_unbound.
+    cbn [flat_map fst snd]. rewrite app_nil_r.
+    assert (OU : eval_term (TMap m (TVar y)) (bind [] cid concat_value)
+                 = map (fun w => (bind (bind [] cid concat_value) y w, apply_map h m w)) (dom y)).
+    { cbn [EvalPure.eval_term lookup bind]. rewrite y_cid. cbn [lookup]. now rewrite map_map. }
+    rewrite OU, flat_map_map'. cbn [fst snd]. clear OU.
+    induction (dom y) as [|w d IH]; [reflexivity|]. cbn [map flat_map filter fst snd]. rewrite orb_false_r.
+    destruct (apply_op o concat_value (apply_map h m w)); cbn [app filter map flat_map fst snd negb]; [|exact IH].
+    rewrite IH. f_equal.
+    cbn [bind_selected EvalPure.eval_term lookup bind]. rewrite Nat.eqb_refl. cbn [flat_map fst app].
+    cbn [lookup bind]. rewrite x_y, x_cid. cbn [lookup]. rewrite app_nil_r, flat_map_map'. cbn [fst].
+    rewrite flat_map_singleton_map, map_map. apply map_ext. intros v.
+    unfold row_of. cbn [map EvalPure.eval_term lookup bind]. rewrite Nat.eqb_refl. rewrite (Nat.eqb_sym y x), x_y, Nat.eqb_refl. reflexivity.
   Qed.
 End ConcatAny.
 
